@@ -22,24 +22,49 @@ pub fn prop() -> Prop {
 
 fn spec() -> Spec {
     Spec {
-        kinds: vec![Kind { name: "jacobian", quick: 300_000, thorough: 8_000_000, serial: false }],
-        rule: "each case = non-degenerate 6-DOF robot (64 sign patterns, offsets), bare or in a stack of depth 1..3 from Tool/Base/Frame/Parallelogram, with or without joint limits (a share of the joint vectors sits within the differencing step of a limit) x q x epsilon in {1e-7,1e-6,1e-5}; the Jacobian is reconstructed through torques_from_vector(e_k) and compared column by column with the geometric Jacobian of the reference chain (x base, tool lever arm, coupling matrix for parallelograms); velocities reproduce the twist when cond(J) <= 1e6; torques == J^T F; isometry- and vector-based entry points agree. non-trivial = cond(J) <= 1e6; distinct = hash(robot, stack, q, eps)",
+        kinds: vec![Kind { name: "jacobian", quick: 300_000, thorough: 8_000_000, serial: false }, Kind { name: "shared_history", quick: 20_000, thorough: 500_000, serial: false }],
+        rule: "each case = non-degenerate 6-DOF robot (64 sign patterns, offsets), bare or in a stack of depth 1..3 from Tool/Base/Frame/Parallelogram, with or without joint limits (a share of the joint vectors sits within the differencing step of a limit) x q x epsilon in {1e-7,1e-6,1e-5}; the Jacobian is reconstructed through torques_from_vector(e_k) and compared column by column with the geometric Jacobian of the reference chain (x base, tool lever arm, coupling matrix for parallelograms); velocities reproduce the twist when cond(J) <= 1e6; torques == J^T F; isometry- and vector-based entry points agree. shared_history: 2-3 robots sharing link lengths (other signs / offsets / c4) evaluated at the bit-identical joint vector, step and stack in the order A,B,(C,)A,B,.. on one thread, each judged by its own geometric Jacobian. non-trivial = cond(J) <= 1e6; distinct = hash(robot, stack, q, eps)",
         assumptions: vec![
             "|J - J_geo| <= 5*eps*(1+reach) + 4e-15*(1+reach)/eps (forward-difference truncation + rounding)",
             "J*qdot == x within cond(J)*1e-10*(1+|x|) when cond(J) <= 1e6 (SVD computed in the harness)",
         ],
-        minimums: vec![("oracle_evals", 8_000_000, 200_000_000), ("well_conditioned", 250_000, 6_000_000), ("near_limit_cases", 80_000, 2_000_000)],
+        minimums: vec![("oracle_evals", 8_000_000, 200_000_000), ("well_conditioned", 250_000, 6_000_000), ("near_limit_cases", 80_000, 2_000_000), ("history.steps", 80_000, 2_000_000)],
     }
 }
 
-fn run_case(_kind: &str, idx: u64, rng: &mut Rng, mon: &mut Mon, _tier: Tier) {
+fn run_case(kind: &str, idx: u64, rng: &mut Rng, mon: &mut Mon, _tier: Tier) {
     let robot = gen_robot(rng, idx, RobotMode::NonDegenerate, 0.0);
     let rp = robot.rp;
     let depth = rng.usize(4);
     let layers = gen_stack(rng, depth, false, &["Tool", "Base", "Frame", "Parallelogram"]);
-    let sname = stack_name(&layers);
     let eps = *rng.pick(&[1e-7, 1e-6, 1e-5]);
-    let mut q = if rng.bool(0.2) { joints_resting(rng, PI) } else { joints_uniform(rng, PI) };
+    let q = if rng.bool(0.2) { joints_resting(rng, PI) } else { joints_uniform(rng, PI) };
+    if kind == "shared_history" {
+        // History workload: robots sharing their link lengths (differing in signs / offsets / c4) are
+        // evaluated at the bit-identical joint vector, step and stack one after the other on the same
+        // thread (A, B, A, ...); each Jacobian is judged by that robot's own geometric Jacobian.
+        let mut robots = vec![robot];
+        for _ in 0..(1 + rng.usize(2)) {
+            let mut r = robot;
+            match rng.usize(3) {
+                0 => {
+                    let j = rng.usize(6);
+                    r.rp.signs[j] = -r.rp.signs[j];
+                }
+                1 => r.rp.offsets[rng.usize(6)] += *rng.pick(&[PI / 2.0, -PI / 2.0, 0.3, PI]),
+                _ => r.rp.c4 += rng.range(0.01, 0.1),
+            }
+            r.sign_pattern = 64;
+            robots.push(r);
+        }
+        let cons = if rng.bool(0.5) { None } else { Some(Constraints::new([-3.3; 6], [3.3; 6], 0.0)) };
+        let n = robots.len();
+        for step in 0..(2 * n + 1) {
+            mon.count("history.steps");
+            evaluate(idx + 2, &robots[step % n], &layers, &q, eps, if cons.is_some() { 1 } else { 0 }, cons, rng, mon);
+        }
+        return;
+    }
     // limits: none / wide / a joint sitting within the differencing step of a limit
     let lim_mode = rng.usize(3);
     let cons = if lim_mode == 0 {
@@ -62,13 +87,23 @@ fn run_case(_kind: &str, idx: u64, rng: &mut Rng, mon: &mut Mon, _tier: Tier) {
         }
         Some(Constraints::new(from, to, 0.0))
     };
+    let _ = rp;
+    evaluate(idx, &robot, &layers, &q, eps, lim_mode, cons, rng, mon);
+}
+
+#[allow(clippy::too_many_arguments)]
+fn evaluate(idx: u64, robot: &Robot, layers: &Vec<Layer>, q: &[f64; 6], eps: f64, lim_mode: usize, cons: Option<Constraints>, rng: &mut Rng, mon: &mut Mon) {
+    let robot = *robot;
+    let rp = robot.rp;
+    let q = *q;
+    let depth = layers.len();
+    let sname = stack_name(layers);
     let bare: Arc<dyn rs_opw_kinematics::kinematic_traits::Kinematics> = match cons {
         None => Arc::new(OPWKinematics::new(to_params(&rp))),
         Some(c) => Arc::new(OPWKinematics::new_with_constraints(to_params(&rp), c)),
     };
-    let mut spy = Spy::new(build(bare, &layers));
+    let mut spy = Spy::new(build(bare, layers));
     spy.record = false;
-    let _ = &mut q;
     let jac = Jacobian::new(&spy, &q, eps);
     // reconstruct J: torques_from_vector(e_k) = J^T e_k = row k
     let mut j = [[0.0; 6]; 6];
@@ -81,14 +116,14 @@ fn run_case(_kind: &str, idx: u64, rng: &mut Rng, mon: &mut Mon, _tier: Tier) {
     // geometric Jacobian of the stack
     let mut left = Fr::id();
     let mut right = Fr::id();
-    for l in &layers {
+    for l in layers.iter() {
         match l {
             Layer::Tool(x) | Layer::Frame(x) => right = right.mul(x),
             Layer::Base(x) => left = x.mul(&left),
             _ => {}
         }
     }
-    let q_inner = ref_inner_joints(&layers, &q);
+    let q_inner = ref_inner_joints(layers, &q);
     let jg_inner = geometric_jacobian(&rp, &q_inner, &left, &right);
     // coupling matrix d q_inner / d q: product over parallelograms from the outermost inwards
     let mut c = [[0.0; 6]; 6];
@@ -121,7 +156,7 @@ fn run_case(_kind: &str, idx: u64, rng: &mut Rng, mon: &mut Mon, _tier: Tier) {
     // couplings amplify second derivatives by up to (1+|s|)^2 per parallelogram
     let amp: f64 = layers.iter().map(|l| if let Layer::Para { scaling, .. } = l { (1.0 + scaling.abs()).powi(2) } else { 1.0 }).product();
     let tol = (5.0 * eps * (1.0 + reach) + 4e-15 * (1.0 + reach) / eps) * amp;
-    let detail = |what: &str, extra: serde_json::Value| json!({"robot": robot_json(&robot), "stack": stack_json(&layers), "q": jf(&q), "epsilon": eps, "limits": cons.map(|c| json!({"from": jf(&c.from), "to": jf(&c.to)})), "clause": what, "extra": extra});
+    let detail = |what: &str, extra: serde_json::Value| json!({"robot": robot_json(&robot), "stack": stack_json(layers), "q": jf(&q), "epsilon": eps, "limits": cons.map(|c| json!({"from": jf(&c.from), "to": jf(&c.to)})), "clause": what, "extra": extra});
     let mut worst = 0.0f64;
     let mut worst_at = (0, 0);
     for a in 0..6 {
